@@ -403,12 +403,12 @@ package gkvlite
 //@   ensures [C15] others: forall j :: j != i ==> net[j] == old(net[j])
 
 //@ func (*Store).ItemValRead
-//@   props C17 C19 C02 C07 C09
+//@   props C17 C19 C02 C07 C09 C01 C06 C11
 //@   requires [C05,C18] nolocks: locks == emptyLocks()
 //@   requires s != nil && i != nil && r != nil
 //@   modifies i.Val, new mem.byte, ghost io.fails, ghost io.reads, ghost io.valbytes, ghost src
 //@   ensures [C07] E1: io.fails >= old(io.fails) && (io.fails > old(io.fails) ==> result != nil)
-//@   ensures [C02,C17] value: result == nil ==> i.Val != nil && len(i.Val) == valLength && agree(content(i.Val), fbytes[r], offset, off(i.Val), valLength)
+//@   ensures [C02,C17,C01,C06,C11] value: result == nil ==> i.Val != nil && len(i.Val) == valLength && agree(content(i.Val), fbytes[r], offset, off(i.Val), valLength)
 //@   ensures io.valbytes >= old(io.valbytes)
 
 //@ func (*Store).ItemValWrite
@@ -479,7 +479,7 @@ package gkvlite
 //@   ensures [C09] other-files: forall f :: f != c.store.file ==> fbytes[f] == old(fbytes[f]) && flen[f] == old(flen[f]) && io.minoff[f] == old(io.minoff[f])
 
 //@ func (*itemLoc).read
-//@   props C01 C02 C14 C19 C15 C17 C07 C09
+//@   props C01 C02 C14 C19 C15 C17 C07 C09 C05 C04
 //@   requires [C05,C18] nolocks: locks == emptyLocks()
 //@   from: C14 item record layout (decoder side of P1); C19 "key-only operations never read a byte of any item's value"; C15 accounting; C07 E1
 //@   requires c != nil && c.store != nil
@@ -1371,7 +1371,7 @@ package gkvlite
 //@   postulate [C15] caller-owes-the-release: orphans == old(orphans) + (result != nil ? 1 : 0)
 
 //@ func (*Store).visitNodes
-//@   props C06 C19 C07 C15 C05 C13
+//@   props C06 C19 C07 C15 C05 C13 C18
 //@   from: C06 statement ("delivers exactly the items with key >= target in strictly ascending key order / key < target in strictly descending order", "each delivered item carries the right key, priority and (when requested) value", "visiting stops as soon as the visitor returns false", "the depth reported is the item's true depth in the tree")
 //@   requires [C05,C18] nolocks: locks == emptyLocks()
 //@   requires o != nil && t != nil && t.store == o && t.compare != nil && visitor != nil && choiceFunc != nil
@@ -1384,8 +1384,8 @@ package gkvlite
 //@   ensures [C06] log-only-grows: vis.n >= old(vis.n) && (forall idx {vis.key[idx]} {vis.item[idx]} {vis.depth[idx]} {vis.hasval[idx]} {old(vis.key)[idx]} {old(vis.item)[idx]} {old(vis.depth)[idx]} {old(vis.hasval)[idx]} :: idx < old(vis.n) ==> vis.key[idx] == old(vis.key)[idx] && vis.item[idx] == old(vis.item)[idx] && vis.depth[idx] == old(vis.depth)[idx] && vis.hasval[idx] == old(vis.hasval)[idx])
 //@   ensures [C06] delivered-items-are-the-trees: forall idx {vis.key[idx]} {vis.item[idx]} {vis.depth[idx]} {vis.hasval[idx]} :: old(vis.n) <= idx && idx < vis.n ==> mem(vis.key[idx], old(tvs)[n]) && vis.item[idx] == itemAt(vis.key[idx], old(tvs)[n]) && (visitDir(codeOf(choiceFunc)) == 0 ? vis.key[idx] >= ord(target) : vis.key[idx] < ord(target)) && vis.depth[idx] == depth + depthIn(vis.key[idx], old(tvs)[n]) && (withValue ==> vis.hasval[idx])
 //@   ensures [C06] strictly-ordered: forall idx, jdx {vis.key[idx], vis.key[jdx]} :: old(vis.n) <= idx && idx < jdx && jdx < vis.n ==> (visitDir(codeOf(choiceFunc)) == 0 ? vis.key[idx] < vis.key[jdx] : vis.key[idx] > vis.key[jdx])
-//@   ensures [C06] complete-unless-stopped: result1 == nil && result0 ==> vis.stop == old(vis.stop) && (forall k {mem(k, old(tvs)[n])} :: mem(k, old(tvs)[n]) && (visitDir(codeOf(choiceFunc)) == 0 ? k >= ord(target) : k < ord(target)) ==> exists idx {vis.key[idx]} :: old(vis.n) <= idx && idx < vis.n && vis.key[idx] == k)
-//@   ensures [C06] stops-when-told: result1 == nil && !result0 ==> vis.stop
+//@   ensures [C06,C18] complete-unless-stopped: result1 == nil && result0 ==> vis.stop == old(vis.stop) && (forall k {mem(k, old(tvs)[n])} :: mem(k, old(tvs)[n]) && (visitDir(codeOf(choiceFunc)) == 0 ? k >= ord(target) : k < ord(target)) ==> exists idx {vis.key[idx]} :: old(vis.n) <= idx && idx < vis.n && vis.key[idx] == k)
+//@   ensures [C06,C18] stops-when-told: result1 == nil && !result0 ==> vis.stop
 //@   ensures [C01] never-unloads-nodes: forall x {nodeLoc.node[x]} :: x != nil && !fresh(x) && old(nodeLoc.node[x]) != nil ==> nodeLoc.node[x] == old(nodeLoc.node[x])
 //@   ensures [C01] item-slots-stay-occupied: forall y {itemLoc.item[y]} :: !fresh(y) && (old(itemLoc.item[y]) != nil || !emptyLoc(itemLoc.loc[y])) ==> itemLoc.item[y] != nil || !emptyLoc(itemLoc.loc[y])
 //@   ensures [C19] key-only-reads-no-value: !withValue ==> io.valbytes == old(io.valbytes)
